@@ -194,6 +194,8 @@ def materialise(resources, main, prefix="file:///zcv/", reuse=False, odd_dir=Fal
         rel = url[len(prefix):]
         path = os.path.join(base, *rel.split("/"))
         os.makedirs(os.path.dirname(path), exist_ok=True)
+        # a text may name another resource by its absolute URL: that URL moves with the files
+        text = text.replace(prefix, "file://" + pathname2url(base) + "/")
         with open(path, "w", encoding="utf-8", newline="\n") as f:
             f.write(text)
         real = "file://" + pathname2url(path)
